@@ -45,7 +45,9 @@ def c09(tier):
     # nodes with more children than the listing page (100): every stored child must appear exactly once
     wide = [{"tuples": [], "d": d, "wn": wn, "nch": wn + 1, "nleaves": wn + (1 if d == 2 else 101)} for wn in (99, 100, 101, 201) for d in (2, 3)]
     allc = cases + wide
-    inp = {"cases": [{"id": i, "tuples": c["tuples"], "d": c["d"], "wn": c["wn"]} for i, c in enumerate(allc)], "gdepth": 12}
+    inp = {"cases": [{"id": i, "tuples": c["tuples"], "d": c["d"], "wn": c["wn"], "faults": (i % 5 == 0 and c["d"] >= 2 and c["wn"] in (0, 101))}
+                     for i, c in enumerate(allc)], "gdepth": 12}
+    nfaults = 0
     recs = {x["id"]: x for x in run_harness(binary, "expand", inp)}
     known = {f["id"]: f for f in known_findings("C09")}
     for i, c in enumerate(allc):
@@ -55,6 +57,12 @@ def c09(tier):
         ck.evaluations += 1
         stored = [t for t in c["tuples"] if t]
         cid = {"stored_in_order": stored, "depth": c["d"], "wide": c["wn"], "root": ["set", "n", "s", "r"]}
+        for f in ob.get("faults") or []:
+            ck.evaluations += 1
+            nfaults += 1
+            if f["status"] == 200 and not f["same"]:
+                ck.violation("an expand during which a storage statement failed (%s error on statement %d of %d) answered 200 with another tree than without the failure"
+                             % (f["flavour"], f["k"], ob["nstmts"]), dict(cid, fault=f))
         if "engine_err" in ob:
             ck.violation("expand failed: " + ob["engine_err"], cid)
             continue
@@ -121,6 +129,7 @@ def c09(tier):
         if f["id"] not in ck.known_hits and not ck.violations:
             raise Inconclusive("known finding %s did not reproduce: remove it from known_findings.json" % f["id"])
     ck.extra["cases"] = len(allc)
+    ck.extra["expands_with_a_failing_statement"] = nfaults
     ck.exhaustive = not p["sample"]
     import p_reconf
     p_reconf.reconf(ck, binary, tier, "C09")
